@@ -311,7 +311,18 @@ def run(ctx: lib.Ctx) -> None:
         hist.append((d['node_counter'], d['pending'], [tuple(c) for c in d['history']]))
         ctx.corpus_cases += 1
     hist += FIXED
-    n_total = ctx.n(1200, 30000)
+    # exhaustive: every history up to length 2 (quick) / 3 (thorough) over a 17-call alphabet
+    alphabet = ([('Fill', l, n) for l in (0, 1) for n in (1, 2)] + [('Autofill', l, n, ok) for l in (0, 1) for n in (1, 2) for ok in (True, False)]
+                + [('Inject', g, ok) for g in (0, 1) for ok in (True, False)] + [('Bake',)])
+    import itertools
+    for k in range(1, ctx.n(2, 3) + 1):
+        for h in itertools.product(alphabet, repeat=k):
+            if any(c[0] == 'Inject' for c in h):
+                hist.append((10, 0, list(h)))
+                if k <= 2:
+                    hist.append((127, 1, list(h)))
+    ctx.extra['exhaustive_histories'] = len(hist) - len(FIXED) - ctx.corpus_cases
+    n_total = len(hist) + ctx.n(1000, 20000)
     while len(hist) < n_total:
         nc0 = rng.choice([0, 1, 5, 10, 125, 126, 127, 128, 16382, 16383, 10 ** 6, 2 ** 63 - 2])
         if rng.random() < 0.45:
